@@ -11,6 +11,8 @@ Bytes(f, n, salt) == CASE f = 0 -> [i \in 1..n |-> (i * 41 + salt * 59 + 5) % 25
                        [] f = 2 -> [i \in 1..n |-> 0]
                        [] f = 3 -> [i \in 1..n |-> IF i > n - 4 THEN 255 ELSE (i * 7 + salt) % 256]  \* ends ff ff ff ff
                        [] f = 5 -> [i \in 1..n |-> IF i <= 16 THEN i ELSE IF i <= 32 THEN 0 ELSE i % 251]  \* 01..10, then a block of zeros, then more
+                       \* IVs that look like a ready-made counter block: ending 00 00 00 01 / 00 00 00 00 / 00 00 00 02
+                       [] f \in {6, 7, 8} -> [i \in 1..n |-> IF i > n - 4 THEN (IF i = n THEN (CASE f = 6 -> 1 [] f = 7 -> 0 [] f = 8 -> 2) ELSE 0) ELSE (i * 13 + salt) % 256]
 KeyB(k) == [j \in 1..16 |-> (k * 37 + j * 101 + j * j * (k + 3) + (k \div 256) * (j * 29 + 11)) % 256]
 \* an IV (16 bytes, so J0 = GHASH(IV)) chosen such that J0 = ff..ff fffffffe: the 32-bit counter wraps
 \* after two blocks.  J0 = ((IV.H) + L).H  =>  IV = ((J0.H^-1) + L).H^-1, H^-1 = H^(2^128-2).
